@@ -195,7 +195,9 @@ def main():
         n, surv = runner.mutant_sweep(keys, z3_ms=5000)
         allowed = set(tuple(x) for x in P.get("equivalent_mutants", []))
         real = [s for s in surv if tuple(s) not in allowed]
-        mutant_info = dict(mutants=n, killed=n - len(surv), survivors=[list(s) for s in surv], unexplained=[list(s) for s in real])
+        mutant_info = dict(mutants=n, killed=n - len(surv), survivors=[list(s) for s in surv], unexplained=[list(s) for s in real],
+                           sites_unreachable_under_contract=getattr(runner.mutant_sweep, "out_of_scope", 0),
+                           baseline_not_passing_under_sweep_budget=getattr(runner.mutant_sweep, "invalid", []))
         if real:
             undecided.append("engine/contract weakness: %d built-in mutants survive: %s" % (len(real), real[:5]))
 
